@@ -25,6 +25,28 @@ CHECKS = {
         note='Domain clauses evaluated by the exact-TM oracle; mirror "identical" read at the 11-decimal output '
              'resolution; one open finding (longitude closure at |lat|>70 deg limited by 0.1 mm output rounding).',
         design='§5/C02'),
+    'C03': dict(
+        text='Complete sweep: 9 ellipsoids x latitude lattice (0, +-1e-12, +-1e-9, +-90, fill) x longitudes in [-360, 360] x '
+             '5 heights x 6 input types through llh2xyz against the closed form in 40-digit arithmetic (1 um), then '
+             'xyz2llh (depth 2) judged by re-projecting its result with the oracle (0.02 mm); plus a lattice placed '
+             'directly in Cartesian space (all octants, p from 1 mm to 4.6e7 m, heights classified by the oracle inverse).',
+        note='mpmath closed form on the exact binary values of the arguments; continuum decided on lattices.',
+        design='§5/C03'),
+    'C04': dict(
+        text='Complete sweep of vincdir over 8 ellipsoids x start latitudes (poles, equator +-1e-9, fill) x 4 start '
+             'longitudes x azimuth lattice (cardinals, 1e-9, 359.999999, 360, fill) x distances 0..20 000 km (log and '
+             'linear) x input types (~1.6 M states quick) against the exact geodesic obtained by quadrature of the '
+             'auxiliary-sphere integrals; the structural sub-lattice additionally through the 34-digit oracle.',
+        note='float64 oracle validated at run time against mpmath (<1e-7 m, <1e-11 deg), own round trip and pole-limit '
+             'continuity; end-point separation measured as 3-D chord.',
+        design='§5/C04'),
+    'C05': dict(
+        text='All ordered pairs of a point lattice (poles, equator +-1e-9, antimeridian +-1e-6, 1 mm / 1 m neighbours, fill; '
+             'separation <= 178 deg) x 6-8 ellipsoids through vincinv; result fed to the exact direct geodesic (arrival <= 2 mm), '
+             'reverse azimuth vs oracle azimuth at point 2; depth 2: swap and common longitude offsets {+14,-90,+360,-360} '
+             'with azimuth changes weighed by the oracle reduced length (~0.7 M pairs, 4 M calls quick).',
+        note='Reduced length by differencing the oracle; one open finding (sub-nanometre azimuth noise on lines < 10 m).',
+        design='§5/C05'),
     'C10': dict(
         text='Every C01 state and its grid2geo image: point scale factor and grid convergence against '
              'k=|dz/dzeta|/(nu cos phi), gamma=arg(dz/dzeta) of the exact projection for the requested ellipsoid and '
